@@ -458,7 +458,21 @@ func (sp *ServerPool) handle(ctx *context.Context, mirror bool) string {
 		if sp.timeout > 0 {
 			var cancel stdcontext.CancelFunc
 			stdctx, cancel = stdcontext.WithTimeout(stdctx, sp.timeout)
-			defer cancel()
+			defer func() {
+				// A streamed response body is read after this function has
+				// returned, cancelling the context now would cut it off:
+				// cancel when the body has been read or is closed.
+				if spCtx.resp != nil && spCtx.resp.IsStream() && spCtx.respBody != nil {
+					spCtx.respBody.OnAfter(func(total int, p []byte, err error) {
+						if err != nil {
+							cancel()
+						}
+					})
+					spCtx.respBody.OnClose(func() { cancel() })
+					return
+				}
+				cancel()
+			}()
 		}
 
 		// this function could be called more than once, and these
